@@ -102,7 +102,18 @@ fn expected_records(items: &[Action], io: &Option<IoMap>, rec: &Record) -> Resul
         let (dest, term) = target(a);
         let payload = match a {
             Action::Print | Action::Print0 | Action::FPrint(_) | Action::FPrint0(_) => rec.rel_path.clone(),
-            Action::Printf(f) | Action::FPrintf(_, f) => spec_eval::render(f, rec).map_err(|u| u.0.to_string())?,
+            Action::Printf(f) | Action::FPrintf(_, f) => {
+                // an octal escape above \377 has no defined byte; what matters here is only that
+                // records stay whole, so it stands for the character with that number
+                let f: Vec<Fmt> = f
+                    .iter()
+                    .map(|e| match e {
+                        Fmt::Special(Special::Ascii(n)) if *n > 255 => Fmt::Lit(char::from_u32(*n as u32).unwrap_or('?').to_string()),
+                        other => other.clone(),
+                    })
+                    .collect();
+                spec_eval::render(&f, rec).map_err(|u| u.0.to_string())?
+            }
             _ => return Err("not an output action".into()),
         };
         match io {
@@ -590,9 +601,29 @@ fn cases(tier: Tier) -> Vec<Case> {
         vec![Action::FPrint("../out".into()), Action::FPrint("out".into())],
         vec![Action::FPrint0("./out".into()), Action::FPrint0("out".into())],
         vec![Action::FPrint(".out".into()), Action::FPrint("out".into())],
+        vec![Action::FPrint("d//out".into()), Action::FPrint("d/out".into())],
+        vec![Action::FPrint("out/".into()), Action::FPrint("out".into())],
     ] {
         progs.push(pair);
     }
+    // formats whose ending only resembles a line end (octal values congruent to 10, form feed by
+    // its octal value, a literal backslash-n, two newlines): records must still never run together
+    for last in [
+        Fmt::Special(Special::Ascii(0o412)),
+        Fmt::Special(Special::Ascii(0o14)),
+        Fmt::Special(Special::Ascii(0o12)),
+        Fmt::Special(Special::Ascii(0o212)),
+        Fmt::Special(Special::Form),
+        Fmt::Special(Special::CarriageReturn),
+        Fmt::Lit("\\n".into()),
+        Fmt::Lit("n".into()),
+    ] {
+        progs.push(vec![Action::Printf(vec![Fmt::Field(Field::Name), last.clone()])]);
+        progs.push(vec![Action::Print, Action::Printf(vec![Fmt::Field(Field::Name), last.clone()])]);
+        progs.push(vec![Action::Printf(vec![Fmt::Field(Field::Name), last]), Action::Print]);
+    }
+    progs.push(vec![Action::Printf(vec![Fmt::Field(Field::Name), nl(), nl()])]);
+    progs.push(vec![Action::Printf(vec![Fmt::Field(Field::Name), nl(), nl()]), Action::Print0]);
     // longer plain chains (a third and fourth print action on the same port): model only
     let pa = plain_actions();
     for n in 3..=4usize {
